@@ -28,9 +28,13 @@ def refusals():
         from psyclone.psyir.symbols import SymbolError
         from psyclone.errors import GenerationError
         # the documented errors of rename_symbol / new_symbol / the symbol
-        # property setters / the node-editing methods; anything else that an
-        # edit raises is reported as a harness error and looked at
-        _REFUSALS = (SymbolError, GenerationError, KeyError, ValueError)
+        # property setters / the node-editing methods / the datatype
+        # constructors (TypeError: e.g. an array-valued symbol used as an
+        # array bound); anything else that an edit raises is reported as a
+        # harness error and looked at.  The exception class is part of the
+        # outcome class in the evidence.
+        _REFUSALS = (SymbolError, GenerationError, KeyError, ValueError,
+                     TypeError)
     return _REFUSALS
 
 
